@@ -54,6 +54,9 @@ def body(ck, F, cfg):
             so = sp.Integer(0)
             for sub in part.nonempty_segs():
                 a = sub.f(j)
+                if not isinstance(a, Sc):
+                    good, why = False, f"scalar is conditional / not a ring term: {a!r}"
+                    break
                 c0, c1, rest = coeffs_in_r(a.e)
                 if rest != 0:
                     good, why = False, f"scalar is not affine in r: remainder {rest}"
@@ -93,7 +96,9 @@ def body(ck, F, cfg):
     ck.require(guarded == MANDATORY, "R03.3", "validated-set", f"points absorbed through the identity-rejecting append: {sorted(guarded)}; reference: {sorted(MANDATORY)}", where)
     ck.require(plain == PLAIN, "R03.3", "plain-set", f"points absorbed without identity check: {sorted(plain)}; reference: {sorted(PLAIN)}", where)
     # R03.4 orientation of s and its recurrence
-    ipp.check_vs(ck, F, "R03.4")
+    VS = ipp.check_vs(ck, F, "R03.4")
+    for name, okk in VS["guards_found"].items():
+        ck.require(okk, "R03.4", f"rounds-match-size:{name}", f"relation (c) folds exactly log2(n) rounds: the verifier must reject any other number of (L,R) pairs (guard `{name}` missing)", "src/inner_product_proof.rs")
     C02.verdict_rule(ck, F, "R03.5")
     ck.floor("layout segments", len([o for o in ck.obligations if o[0] == "R03.1" and o[1].startswith("base:")]), 22)
 
